@@ -39,6 +39,12 @@ LEVEL_TEXT = (
     "order, and interpolator reshapes rows as (component, point). The "
     "KD-tree candidate search, tolerance behaviour on facets, non-"
     "parallelepiped hexahedra and numerical exactness are not decided.")
+LEVEL_TEXT += (
+    " Added after the seeding phase: the 1-D finder is interpreted on "
+    "exact representatives of every order type of (vertices, query "
+    "points) for meshes of one to three cells - all vertex numberings, "
+    "cell orientations and cell orders; points of the interval get a "
+    "containing cell, points outside raise, alone or in a batch.")
 LEVEL_NOTE = ("Trusted: numpy argmax/max/all/tile/flatten; scipy cKDTree "
               "returns candidate cells; gbasis value layout (components..., "
               "cell, point).")
